@@ -1811,6 +1811,9 @@ class Common(Statement):
             s = ", ".join(s)
             if name:
                 bits.append("/ %s / %s" % (name, s))
+            elif bits:
+                # Blank common after another block: the slashes are required.
+                bits.append("// %s" % s)
             else:
                 bits.append(s)
         tab = self.get_indent_tab(isfix=isfix)
